@@ -164,11 +164,26 @@ def build_and_audit(prop: str, mod, tier: str):
                 info["discharged"] += 1
         info["axioms"] = {t: a for t, a in seen.items()}
         if tier == "thorough":
+            # independent re-check of the compiled modules, one module per process and one at a time (a module name is
+            # also a prefix for leanchecker: `Proofs.C06` replays all kernel-sweep shards, ~40 GB); a run that dies
+            # of a resource limit is recorded as skipped, never as a rejection
             t0 = time.time()
-            rc_c, out_c = sh(["lake", "env", "leanchecker"] + ok_mods, cwd=LEAN_DIR, timeout=6000)
-            info["leanchecker"] = {"rc": rc_c, "wall_s": round(time.time() - t0, 1), "modules": ok_mods}
-            if rc_c != 0:
-                broken.append({"kind": "audit", "what": "leanchecker rejected the compiled modules", "detail": out_c[-2000:]})
+            lc = {}
+            with Lock():
+                for m in ok_mods:
+                    try:
+                        rc_c, out_c = sh(["lake", "env", "leanchecker", m], cwd=LEAN_DIR, timeout=5400)
+                    except subprocess.TimeoutExpired:
+                        lc[m] = "skipped: timeout"
+                        continue
+                    if rc_c == 0:
+                        lc[m] = "ok"
+                    elif rc_c < 0 or rc_c in (137, 134, 139) or "out of memory" in out_c.lower():
+                        lc[m] = f"skipped: resource limit (rc {rc_c})"
+                    else:
+                        lc[m] = f"rejected (rc {rc_c})"
+                        broken.append({"kind": "audit", "what": f"leanchecker rejected {m}", "detail": out_c[-2000:]})
+            info["leanchecker"] = {"wall_s": round(time.time() - t0, 1), "modules": lc}
     return broken, info, driver_ok
 
 
